@@ -79,7 +79,15 @@ def tasks(tier):
 def extra(tier, seed):
     names = LEMMAS[tier]
     with ThreadPoolExecutor(max_workers=min(8, len(names))) as ex:
-        return list(ex.map(lambda n: run_lemma(n, TIMEOUT[tier]), names))
+        out = list(ex.map(lambda n: run_lemma(n, TIMEOUT[tier]), names))
+    # concrete probe of the listed finding's input (never added to at run time; see known_findings.json)
+    code = "import warnings; warnings.simplefilter('ignore'); import checks.c11_lemmas as L; print('PRESENT', L.textgrid_finding_present())"
+    rp = subprocess.run([os.path.join(ROOT, ".venv", "bin", "python"), "-W", "ignore", "-c", code], cwd=ROOT, capture_output=True, text=True, env=dict(os.environ, PYTHONPATH=ROOT))
+    if "PRESENT True" in rp.stdout:
+        out.append(dict(name="probe:textgrid-path-options", status="finding", label="textgrid-path-options", inputs="write_textgrid([('a', 0.12345678, 0.12345678)], path, tier_name='T', point_tier=False, precision=0)", obligations=0))
+    elif "PRESENT False" not in rp.stdout:
+        out.append(dict(name="probe:textgrid-path-options", status="inconclusive", detail=(rp.stderr.strip().splitlines() or ["no output"])[-1], obligations=0))
+    return out
 
 
 def replay(rec):
